@@ -18,6 +18,22 @@ type gIdent struct {
 	Key  int    `json:"key"` // index into the p256 key pool
 }
 
+// gKeyName maps a key index to the committed key pool: mostly P-256, plus two RSA keys, a P-384 and an Ed25519
+// key, so that issuer and subject key types differ on some edges.
+func gKeyName(i int) string {
+	switch i {
+	case 12:
+		return "rsa4"
+	case 13:
+		return "rsa5"
+	case 14:
+		return "p384_1"
+	case 15:
+		return "ed3"
+	}
+	return fmt.Sprintf("p256_%d", i)
+}
+
 type gCert struct {
 	Issuer  int  `json:"issuer"`  // identity index (== Subject for self-issued)
 	Subject int  `json:"subject"` // identity index
@@ -53,7 +69,7 @@ func identCert(id gIdent) *kit.Cert {
 	if c, ok := gIdMemo[k]; ok {
 		return c
 	}
-	c := kit.MakeCert(kit.CertSpec{Name: id.Name, Key: fmt.Sprintf("p256_%d", id.Key), IsCA: true, MaxPathLen: -1, Serial: 7})
+	c := kit.MakeCert(kit.CertSpec{Name: id.Name, Key: gKeyName(id.Key), IsCA: true, MaxPathLen: -1, Serial: 7})
 	gIdMemo[k] = c
 	return c
 }
@@ -70,10 +86,10 @@ func (p *gPKI) build(i int) *builtCert {
 		return b
 	}
 	gMemoMu.Unlock()
-	spec := kit.CertSpec{Name: su.Name, Key: fmt.Sprintf("p256_%d", su.Key), IsCA: c.IsCA, MaxPathLen: c.PathLen, Serial: int64(c.Serial)}
+	spec := kit.CertSpec{Name: su.Name, Key: gKeyName(su.Key), IsCA: c.IsCA, MaxPathLen: c.PathLen, Serial: int64(c.Serial)}
 	if !(c.Issuer == c.Subject && c.SignKey == c.Subject) {
 		spec.Issuer = identCert(is)
-		spec.IssuerKey = fmt.Sprintf("p256_%d", sk.Key)
+		spec.IssuerKey = gKeyName(sk.Key)
 	}
 	if !c.IsCA {
 		spec.DNSNames = []string{su.Name + ".sim.test"}
